@@ -44,7 +44,7 @@ func Harness_P08() {
 	flag0, flag2 := ndBool("flag0"), ndBool("flag2")
 	var b strings.Builder
 	b.WriteString("package p\n\ntype myErr struct{}\n\nfunc (*myErr) Error() string { return \"e\" }\n\n")
-	b.WriteString("var errA error = &myErr{}\nvar errB error = &myErr{}\nvar flag0, flag2 bool\n\n")
+	b.WriteString("var errA error = &myErr{}\nvar errB error = &myErr{}\nvar flag0, flag2, flag3 bool\n\n")
 	b.WriteString("func other() error {\n\tif flag2 {\n\t\treturn errB\n\t}\n\treturn nil\n}\n\n")
 	b.WriteString("func callee2() (*int, error) { return new(int), nil }\n\n")
 	otherNil := ndNot(flag2)
@@ -81,9 +81,15 @@ func Harness_P08() {
 		respects = !(r2.vnil && r2.enil)
 	}
 	f := "callee"
-	if ndChoice("forwarded", 2) == 1 {
+	switch ndChoice("forwarded", 3) {
+	case 1:
 		b.WriteString("func mid() (*int, error) { return callee() }\n\n")
 		f = "mid"
+	case 2:
+		// the forwarding function has a return statement of its own with a non-nil value
+		b.WriteString("func mid() (*int, error) {\n\tif flag3 {\n\t\treturn new(int), nil\n\t}\n\treturn callee()\n}\n\n")
+		f = "mid"
+		res = p08Ite(ndBool("flag3"), p08Ret{false, true, false, false}, res)
 	}
 
 	// the caller
@@ -156,7 +162,7 @@ func Harness_P08() {
 func Harness_P08_Ok() {
 	flag0, flag2 := ndBool("flag0"), ndBool("flag2")
 	var b strings.Builder
-	b.WriteString("package p\n\nvar flag0, flag2 bool\n\nfunc other() bool { return flag2 }\n\n")
+	b.WriteString("package p\n\nvar flag0, flag2, flag3 bool\n\nfunc other() bool { return flag2 }\n\n")
 	ret := func(tag string) (string, bool, bool) { // text, value is nil, ok
 		switch ndChoice(tag, 4) {
 		case 0:
@@ -179,9 +185,15 @@ func Harness_P08_Ok() {
 	vnil, ok := ndIteBool(flag0, v1, v2), ndIteBool(flag0, o1, o2)
 	respects := !(v1 && o1) && !(v2 && o2)
 	f := "callee"
-	if ndChoice("forwarded", 2) == 1 {
+	switch ndChoice("forwarded", 3) {
+	case 1:
 		b.WriteString("func mid() (*int, bool) { return callee() }\n\n")
 		f = "mid"
+	case 2:
+		b.WriteString("func mid() (*int, bool) {\n\tif flag3 {\n\t\treturn new(int), true\n\t}\n\treturn callee()\n}\n\n")
+		f = "mid"
+		flag3 := ndBool("flag3")
+		vnil, ok = ndIteBool(flag3, false, vnil), ndIteBool(flag3, true, ok)
 	}
 	proper := false
 	var panics bool
